@@ -35,8 +35,8 @@ type c14 struct{}
 
 func init() { register(&c14{}) }
 
-func (*c14) ID() string                      { return "C14" }
-func (*c14) Level() string                   { return "exploration" }
+func (*c14) ID() string                     { return "C14" }
+func (*c14) Level() string                  { return "exploration" }
 func (*c14) Decode(raw []byte) (any, error) { return decodeInto[C14Scenario](raw) }
 
 var c14Mechs = []string{"PLAIN", "LOGIN", "CRAM-MD5", "XOAUTH2", "SCRAM-SHA-1", "SCRAM-SHA-256", "SCRAM-SHA-1-PLUS", "SCRAM-SHA-256-PLUS", "PLAIN-NOENC", "LOGIN-NOENC", "AUTODISCOVER", "CUSTOM-SCRAM-SHA-256", "CUSTOM-SCRAM-SHA-1"}
